@@ -483,6 +483,8 @@ class Inliner:
             call, mode = st.value.value, "yieldfrom"
         elif isinstance(st, ast.Assign) and isinstance(st.value, ast.Call):
             call, mode = st.value, "assign"
+        elif isinstance(st, ast.Assign) and isinstance(st.value, ast.YieldFrom) and isinstance(st.value.value, ast.Call):
+            call, mode = st.value.value, "assign_yieldfrom"       # x = yield from self._gen(...): the generator's return value
         elif isinstance(st, ast.Return) and isinstance(st.value, ast.Call):
             call, mode = st.value, "return"
         if call is not None:
@@ -497,6 +499,13 @@ class Inliner:
                     if mode == "expr" and not gen:
                         new = self._instantiate(fn, call, bound, None)
                         return self._block(new, depth - 1)
+                    if mode == "assign_yieldfrom" and gen:
+                        res = f"__ret{self.counter + 1}"
+                        new = self._instantiate(fn, call, bound, res)
+                        tail = ast.Assign(targets=st.targets, value=ast.Name(id=res, ctx=ast.Load()))
+                        ast.copy_location(tail, st)
+                        ast.fix_missing_locations(tail)
+                        return self._block(new, depth - 1) + [tail]
                     if mode == "assign" and not gen and len(st.targets) == 1 and isinstance(st.targets[0], ast.Tuple):
                         n_t = len(st.targets[0].elts)
                         rets = [r for r in ast.walk(fn) if isinstance(r, ast.Return)]
@@ -519,12 +528,26 @@ class Inliner:
                             return self._block(new, depth - 1) + [tail]
                 except CannotInline:
                     pass
+        # X.extend(self._gen(...)) with a private generator helper: one append per generated element
+        if isinstance(st, ast.Expr) and isinstance(st.value, ast.Call) and isinstance(st.value.func, ast.Attribute) and st.value.func.attr == "extend" \
+                and len(st.value.args) == 1 and not st.value.keywords and isinstance(st.value.args[0], ast.Call):
+            r = self.resolve_call(st.value.args[0])
+            if r is not None and _is_generator(r[0]) and isinstance(st.value.func.value, (ast.Name, ast.Attribute)):
+                self.counter += 1
+                ev = f"__e{self.counter}"
+                app = ast.Expr(value=ast.Call(func=ast.Attribute(value=copy.deepcopy(st.value.func.value), attr="append", ctx=ast.Load()),
+                                              args=[ast.Name(id=ev, ctx=ast.Load())], keywords=[]))
+                loop = ast.For(target=ast.Name(id=ev, ctx=ast.Store()), iter=st.value.args[0], body=[app], orelse=[])
+                ast.copy_location(loop, st)
+                ast.fix_missing_locations(loop)
+                st = loop
         # for T in self._gen(...): BODY   with a private generator helper: the helper's body with `yield E` -> `T = E; BODY`
         if isinstance(st, ast.For) and not st.orelse and isinstance(st.iter, ast.Call):
             r = self.resolve_call(st.iter)
             if r is not None and _is_generator(r[0]) and not any(isinstance(n, (ast.Break, ast.Continue, ast.Return)) for b in st.body for n in ast.walk(b)):
                 fn, bound = r
-                has_bad = any(isinstance(n, (ast.YieldFrom, ast.Return)) for n in ast.walk(fn) if n is not fn)
+                # an early `return` of the generator ends the iteration (the loop has no else/break): read as "rest not executed"
+                has_bad = any(isinstance(n, ast.YieldFrom) for n in ast.walk(fn) if n is not fn)
                 if not has_bad:
                     try:
                         new = self._instantiate(fn, st.iter, bound, None)
@@ -878,7 +901,7 @@ def _literal_elements(repo: Optional[Repo], ci: Optional[ClassInfo], e: ast.expr
             return rows
     # a module / class constant written as a tuple display (rows may name codecs, attributes, …): the rows as written
     if repo is not None and isinstance(e, (ast.Name, ast.Attribute)) or \
-            (repo is not None and isinstance(e, ast.Call) and isinstance(e.func, ast.Attribute) and e.func.attr == "items" and not e.args):
+            (repo is not None and isinstance(e, ast.Call) and isinstance(e.func, ast.Attribute) and e.func.attr in ("items", "values", "keys") and not e.args):
         rows = _display_rows(repo, ci, sf, e)
         if rows is not None:
             return rows
@@ -911,8 +934,9 @@ def _display_rows(repo: Repo, ci: Optional[ClassInfo], sf: Optional[SourceFile],
     Only immutable displays count (a tuple; a dict display is accepted because `.items()` of a module/class constant that is
     never re-bound is what the loop iterates), and only up to MAX_UNROLL rows of plain names / constants / tuples of these."""
     items = False
+    view = "items"
     if isinstance(e, ast.Call):
-        items, e = True, e.func.value
+        items, view, e = True, e.func.attr, e.func.value
     sf = sf or (ci.file if ci is not None else None)
     d = definition_of(repo, ci, sf, e)
     if d is None:
@@ -926,7 +950,10 @@ def _display_rows(repo: Repo, ci: Optional[ClassInfo], sf: Optional[SourceFile],
     if items:
         if not (isinstance(d, ast.Dict) and all(k is not None and isinstance(k, ast.Constant) for k in d.keys)):
             return None
-        rows: List[ast.expr] = [ast.Tuple(elts=[k, v], ctx=ast.Load()) for k, v in zip(d.keys, d.values)]
+        if len({repr(k.value) for k in d.keys}) != len(d.keys):
+            return None               # a repeated key: the display is not the mapping
+        rows: List[ast.expr] = [ast.Tuple(elts=[k, v], ctx=ast.Load()) if view == "items" else (v if view == "values" else k)
+                                for k, v in zip(d.keys, d.values)]
     elif isinstance(d, ast.Tuple) and not any(isinstance(x, ast.Starred) for x in d.elts):
         rows = list(d.elts)
     else:
